@@ -840,6 +840,28 @@ class ArrayDefault(Rule):
         return G['v']
 
 
+class IsMonotonic(Contract):
+    """evaluable._ismonotonic(indices) <=> indices strictly increasing.  Inflate._intbounds_impl and Inflate._sign apply it
+    to numpy.sort(dofmap.value, axis=None): true iff the dofmap has no repeated entry."""
+    prop = PROP
+    fn = 'evaluable:_ismonotonic'
+
+    def setup(self, cx):
+        from pyvc.nparr import Vec, Numpy
+        from pyvc import lemmas
+        a = Vec.fresh(cx, 'indices', 'int', probes=4)
+        lemmas.strict_gap(cx, a)
+        return State(args=(a,), a=a, globals={'numpy': Numpy()})
+
+    def ensures(self, cx, S, result):
+        from pyvc.nparr import qforall
+        from pyvc.values import zbool
+        a = S.a
+        strict = qforall(1, lambda i: z3.Implies(z3.And(0 <= i, i + 1 < a.n), a.sel(i) < a.sel(i + 1)))
+        r = zbool(result) if not isinstance(result, bool) else z3.BoolVal(result)
+        return [('true-only-if-strictly-increasing', z3.Implies(r, strict)), ('true-if-strictly-increasing', z3.Implies(strict, r))]
+
+
 def no_witness(rule):
     """Variant for possibly-empty arrays: no element value is assumed to exist in any child range; only the
     invariant of the returned pair is claimed (the wrapper asserts it whether or not the array has elements)."""
@@ -868,7 +890,7 @@ def contracts():
     # VERIF_C06_NO_WITNESS=1 adds them.
     import os
     base = _base()
-    out = [c() for c in base]
+    out = [c() for c in base] + [IsMonotonic()]
     if os.environ.get('VERIF_C06_NO_WITNESS'):
         for c in base:
             if c.cls in ('NormDim', 'AssertEqual', 'InRange') or c.method != '_intbounds_impl' or c is ArrayFromTupleNoBounds:
